@@ -204,7 +204,13 @@ pub fn replay_round(beh: &Value, beh_text: &str, seed: u64, round: u64, stats: &
         return Err(fail(
             "outcome",
             &op,
-            format!("outcome:{}:{}->{}", op, want_class, got_class),
+            format!(
+                "outcome:{}:{}{}->{}",
+                op,
+                want_class,
+                if want_class == "err" { format!("({})", want_out[1].as_str().unwrap_or("")) } else { String::new() },
+                got_class
+            ),
             format!("{}: specification says {} but the library returned {}", op, want_out, got),
         ));
     }
